@@ -469,7 +469,8 @@ def run_pipeline(
                     image_dtype: np.dtype = buckets_data_tree["image"].dtype
                     exp_dtype: np.dtype = detector.image.dtype
 
-                    if image_dtype != exp_dtype:
+                    # An unsigned integer type is the common type of the readouts: nothing to restore
+                    if image_dtype != exp_dtype and image_dtype.kind != "u":
                         buckets_data_tree["image"] = buckets_data_tree["image"].astype(
                             dtype=exp_dtype
                         )
